@@ -382,7 +382,16 @@ def run(ctx):
     quick = ctx.quick()
     lines_per_file = 8 if quick else 60
     files_per_tpl = 1 if quick else 6
-    vlib.proof_stage(ctx, PROP_FILE, ["datetime", "regexes"], extra_targets=["Corr/C04.vo", "Corr/C04r.vo"])
+    # thorough tier only: the competitor lists of ALL rows (16 generated shards coq/Gen/RegexCompShard_NN.v evaluated
+    # in parallel, ~140 CPU-minutes, assembled by Proofs/RegexCompAll.v); the quick tier keeps the four-row obligation
+    extra = ["Corr/C04.vo", "Corr/C04r.vo"] + ([] if quick else ["Proofs/RegexCompAll.vo"])
+    if not quick:
+        # the shards need more than proof_stage's make timeout when they are not cached: build them first
+        with vlib.Lock("coq"):
+            okp, _ = vlib.coq_prepare(["datetime", "regexes"])
+            if okp:
+                vlib.sh(["make", "-j%d" % vlib.NCPU, "Proofs/RegexCompAll.vo"], cwd=COQ, timeout=7200)
+    vlib.proof_stage(ctx, PROP_FILE, ["datetime", "regexes"], extra_targets=extra)
     ok, log = vlib.build_harness("c04")
     if not ok:
         ctx.obligation_broken("build", "harness c04", log)
